@@ -1,11 +1,14 @@
-(* Proofs about NV.Bcf.Lazy, part 7: the classes excluded by [lazy_agree] are inhabited, and on each of
-   them the lazy path really differs from the eager one (witnesses by computation): every witness is a
-   record the eager reader ACCEPTS, on which read_record + try_from_variant_record fails or builds a
-   different RecordBuf.  Also witnesses of the other direction (lazy accepts, eager rejects). *)
+(* Proofs about NV.Bcf.Lazy, part 7: the witnesses.  Before the repairs 0b0f2ab, 0ba8d0b, a1ba5e6,
+   e4c926c and a82186d the lazy accessors differed from read_record_buf on seven input classes; each
+   class had a witness record here (`*_refuted`) that the eager reader accepted and the lazy path
+   rejected or read differently.  The same records are now read alike by both models (`*_agrees`), lie
+   inside [lazy_agree], and are still cases of corpus/C10/lazy.case run against the real crates.
+   Also: witnesses of the other direction (lazy accepts, eager rejects), which the repairs did not
+   touch, and of the one thing [lazy_agree] still excludes (an assumption of the eager model). *)
 From Coq Require Import ZArith NArith List Bool Lia.
-From NV Require Import Base.Percent.
 From NV Require Import Bcf.Ints Bcf.Typed Bcf.Strings Bcf.Genotype Bcf.StringMap Bcf.Record Bcf.RecordTyped
-  Bcf.Lazy Bcf.LazySiteProofs Bcf.LazyInfoProofs Bcf.LazyFmtProofs Bcf.LazyColProofs Bcf.LazyEagerProofs.
+  Bcf.Lazy Bcf.LazySiteProofs Bcf.LazyInfoProofs Bcf.LazyFmtProofs Bcf.LazyColProofs Bcf.LazyEagerProofs
+  Bcf.LazyConverse.
 Import ListNotations.
 Open Scope Z_scope.
 
@@ -40,72 +43,118 @@ Definition same (v44 : bool) (a b : rres trecord) : Prop :=
 Definition is_ok {A} (r : rres A) : bool := match r with ROk _ => true | _ => false end.
 Definition is_err {A} (r : rres A) : bool := match r with RErr => true | _ => false end.
 
-(* ---- lazy-empty-allele: REF is the typed string of length 0 (0x07).  eager: REF = ".", lazy: REF = "" *)
+(* both paths accept, inside the class, and the two RecordBufs are equal up to trec_norm *)
+Definition agrees (v44 : bool) (kd : ikind) (fd : fkind) (hs : Z) (bs : list N) : Prop :=
+  is_ok (eager kd fd hs bs) = true /\ agree kd fd hs bs = true /\ same v44 (lazy v44 kd fd bs) (eager kd fd hs bs).
+
+Ltac agrees_by_computation := split; [vm_compute; reflexivity|split; vm_compute; reflexivity].
+
+(* ---- was lazy-empty-allele: REF is the typed string of length 0 (0x07): REF = "." in both *)
 Definition w_empty_ref : list N := w_frame (w_fixed 0 1 0 0 ++ [7; 7; 0]%N) [].
-Theorem lazy_empty_ref_refuted :
-  is_ok (eager KFlag (FInt true) 0 w_empty_ref) = true /\ is_ok (lazy true KFlag (FInt true) w_empty_ref) = true /\
-  agree KFlag (FInt true) 0 w_empty_ref = false /\
-  ~ same true (lazy true KFlag (FInt true) w_empty_ref) (eager KFlag (FInt true) 0 w_empty_ref).
-Proof. split; [vm_compute; reflexivity|]. split; [vm_compute; reflexivity|]. split; [vm_compute; reflexivity|]. vm_compute. discriminate. Qed.
+Theorem lazy_empty_ref_agrees : agrees true KFlag (FInt true) 0 w_empty_ref /\
+  match lazy true KFlag (FInt true) w_empty_ref with ROk t => h_ref (t_head t) = [dot] | _ => False end.
+Proof. split; [agrees_by_computation|vm_compute; reflexivity]. Qed.
 
-(* ... an ALT of length 0: eager ALT = ".", lazy: Err("invalid alt value") *)
+(* ... an ALT of length 0: ALT = "." in both *)
 Definition w_empty_alt : list N := w_frame (w_fixed 0 2 0 0 ++ [7; 23; 65; 7; 0]%N) [].
-Theorem lazy_empty_alt_refuted :
-  is_ok (eager KFlag (FInt true) 0 w_empty_alt) = true /\ is_err (lazy true KFlag (FInt true) w_empty_alt) = true /\
-  agree KFlag (FInt true) 0 w_empty_alt = false.
-Proof. repeat split; vm_compute; reflexivity. Qed.
+Theorem lazy_empty_alt_agrees : agrees true KFlag (FInt true) 0 w_empty_alt /\
+  match lazy true KFlag (FInt true) w_empty_alt with ROk t => h_alts (t_head t) = [[dot]] | _ => False end.
+Proof. split; [agrees_by_computation|vm_compute; reflexivity]. Qed.
 
-(* ---- lazy-samples-block-trailing-bytes: n_fmt = 0 and one byte in the samples block.  eager ignores
-   it, the lazy series iterator runs until the block is empty and fails on it *)
+(* ---- was lazy-samples-block-trailing-bytes: n_fmt = 0 and one byte in the samples block: neither
+   reader looks at it *)
 Definition w_trailing : list N := w_frame (w_fixed 0 1 0 0 ++ [7; 23; 65; 0]%N) [0%N].
-Theorem lazy_trailing_bytes_refuted :
-  is_ok (eager KFlag (FInt true) 0 w_trailing) = true /\ is_err (lazy true KFlag (FInt true) w_trailing) = true /\
-  agree KFlag (FInt true) 0 w_trailing = false.
-Proof. repeat split; vm_compute; reflexivity. Qed.
+Theorem lazy_trailing_bytes_agrees : agrees true KFlag (FInt true) 0 w_trailing.
+Proof. agrees_by_computation. Qed.
 
-(* ... two series in the block, n_fmt = 1: the lazy path returns BOTH columns *)
+(* ... two series in the block, n_fmt = 1: both readers return the first column only *)
 Definition w_trailing_series : list N :=
   w_frame (w_fixed 0 1 1 1 ++ [7; 23; 65; 0]%N) [17; 3; 17; 5; 17; 3; 17; 6]%N.
-Theorem lazy_trailing_series_refuted :
-  is_ok (eager KFlag (FInt true) 1 w_trailing_series) = true /\ is_ok (lazy true KFlag (FInt true) w_trailing_series) = true /\
-  agree KFlag (FInt true) 1 w_trailing_series = false /\
-  ~ same true (lazy true KFlag (FInt true) w_trailing_series) (eager KFlag (FInt true) 1 w_trailing_series).
-Proof. split; [vm_compute; reflexivity|]. split; [vm_compute; reflexivity|]. split; [vm_compute; reflexivity|]. vm_compute. discriminate. Qed.
+Theorem lazy_trailing_series_agrees : agrees true KFlag (FInt true) 1 w_trailing_series /\
+  match lazy true KFlag (FInt true) w_trailing_series with
+  | ROk t => t_keys t = [nY] /\ t_rows t = [[CI (Some 5)]]
+  | _ => False
+  end.
+Proof. split; [agrees_by_computation|vm_compute; split; reflexivity]. Qed.
 
-(* ---- lazy-gt-zero-length: the GT series is the Int8 descriptor of length 0 (what the writer emits when
-   every genotype is empty).  eager: one missing value; lazy: an empty genotype for every sample *)
+(* ---- was lazy-gt-zero-length: the GT series is the Int8 descriptor of length 0 (what the writer emits
+   when every genotype is empty): the missing value in both *)
 Definition w_gt_zero : list N := w_frame (w_fixed 0 1 1 1 ++ [7; 23; 65; 0]%N) [17; 2; 1]%N.
-Theorem lazy_gt_zero_length_refuted :
-  is_ok (eager KFlag (FInt true) 1 w_gt_zero) = true /\ is_ok (lazy true KFlag (FInt true) w_gt_zero) = true /\
-  agree KFlag (FInt true) 1 w_gt_zero = false /\
-  ~ same true (lazy true KFlag (FInt true) w_gt_zero) (eager KFlag (FInt true) 1 w_gt_zero).
-Proof. split; [vm_compute; reflexivity|]. split; [vm_compute; reflexivity|]. split; [vm_compute; reflexivity|]. vm_compute. discriminate. Qed.
+Theorem lazy_gt_zero_length_agrees : agrees true KFlag (FInt true) 1 w_gt_zero /\
+  match lazy true KFlag (FInt true) w_gt_zero with ROk t => t_rows t = [[CG None]] | _ => False end.
+Proof. split; [agrees_by_computation|vm_compute; reflexivity]. Qed.
 
-(* ---- lazy-array-percent-escape: INFO X (Number=., Type=String) = "%41,b".  eager: ["%41", "b"], lazy:
-   ["A", "b"] *)
+(* ... two samples, GT without values followed by Y = 5, 6 (the input of a1ba5e6, on which the eager
+   reader used to return the rows [., 5] and [6]): both readers give every sample its own row *)
+Definition w_gt_zero_rows : list N :=
+  w_frame (w_fixed 0 1 2 2 ++ [7; 23; 65; 0]%N) [17; 2; 1; 17; 3; 17; 5; 6]%N.
+Theorem lazy_gt_zero_length_rows_agree : agrees true KFlag (FInt true) 2 w_gt_zero_rows /\
+  match eager KFlag (FInt true) 2 w_gt_zero_rows with
+  | ROk t => t_rows t = [[CG None; CI (Some 5)]; [CG None; CI (Some 6)]]
+  | _ => False
+  end.
+Proof. split; [agrees_by_computation|vm_compute; reflexivity]. Qed.
+
+(* ---- was lazy-array-percent-escape: INFO X (Number=., Type=String) = "%41,b": ["%41", "b"] in both *)
 Definition w_percent : list N := w_frame (w_fixed 1 1 0 0 ++ [7; 23; 65; 0; 17; 1; 87; 37; 52; 49; 44; 98]%N) [].
-Theorem lazy_percent_escape_refuted :
-  is_ok (eager (KStr true) (FInt true) 0 w_percent) = true /\ is_ok (lazy true (KStr true) (FInt true) w_percent) = true /\
-  agree (KStr true) (FInt true) 0 w_percent = false /\
-  ~ same true (lazy true (KStr true) (FInt true) w_percent) (eager (KStr true) (FInt true) 0 w_percent).
-Proof. split; [vm_compute; reflexivity|]. split; [vm_compute; reflexivity|]. split; [vm_compute; reflexivity|]. vm_compute. discriminate. Qed.
+Theorem lazy_percent_escape_agrees : agrees true (KStr true) (FInt true) 0 w_percent /\
+  match lazy true (KStr true) (FInt true) w_percent with
+  | ROk t => t_info t = [(nX, IS (SStrs [Some [37; 52; 49]; Some [98]]))]%N
+  | _ => False
+  end.
+Proof. split; [agrees_by_computation|vm_compute; reflexivity]. Qed.
 
-(* ---- lazy-char-array-piece-not-one-char: INFO X (Number=., Type=Character) = "ab".  eager: [a, b],
-   lazy: Err("invalid character") *)
+(* ---- was lazy-char-array-piece-not-one-char: INFO X (Number=., Type=Character) = "ab": [a, b] in both *)
 Definition w_chars : list N := w_frame (w_fixed 1 1 0 0 ++ [7; 23; 65; 0; 17; 1; 39; 97; 98]%N) [].
-Theorem lazy_char_piece_refuted :
-  is_ok (eager (KChar true) (FInt true) 0 w_chars) = true /\ is_err (lazy true (KChar true) (FInt true) w_chars) = true /\
-  agree (KChar true) (FInt true) 0 w_chars = false.
-Proof. repeat split; vm_compute; reflexivity. Qed.
+Theorem lazy_char_piece_agrees : agrees true (KChar true) (FInt true) 0 w_chars /\
+  match lazy true (KChar true) (FInt true) w_chars with
+  | ROk t => t_info t = [(nX, IS (SChars [Some 97; Some 98]))]%N
+  | _ => False
+  end.
+Proof. split; [agrees_by_computation|vm_compute; reflexivity]. Qed.
 
-(* ---- lazy-string-array-empty: FORMAT Y (Number=., Type=String), one sample whose cell is a NUL.
-   eager: [""], lazy: [] *)
+(* ---- was lazy-string-array-empty: FORMAT Y (Number=., Type=String), one sample whose cell is a NUL:
+   [""] in both *)
 Definition w_empty_cell : list N := w_frame (w_fixed 0 1 1 1 ++ [7; 23; 65; 0]%N) [17; 3; 23; 0]%N.
-Theorem lazy_string_array_empty_refuted :
-  is_ok (eager KFlag (FStr false) 1 w_empty_cell) = true /\ is_ok (lazy true KFlag (FStr false) w_empty_cell) = true /\
-  agree KFlag (FStr false) 1 w_empty_cell = false /\
-  ~ same true (lazy true KFlag (FStr false) w_empty_cell) (eager KFlag (FStr false) 1 w_empty_cell).
-Proof. split; [vm_compute; reflexivity|]. split; [vm_compute; reflexivity|]. split; [vm_compute; reflexivity|]. vm_compute. discriminate. Qed.
+Theorem lazy_string_array_empty_agrees : agrees true KFlag (FStr false) 1 w_empty_cell /\
+  match lazy true KFlag (FStr false) w_empty_cell with ROk t => t_rows t = [[CSV (Some [Some []])]] | _ => False end.
+Proof. split; [agrees_by_computation|vm_compute; reflexivity]. Qed.
+
+(* ... and the per-sample text "." of a String array is the missing value in both (it was the array [.]
+   on the lazy side) *)
+Definition w_dot_cell : list N := w_frame (w_fixed 0 1 1 1 ++ [7; 23; 65; 0]%N) [17; 3; 23; 46]%N.
+Theorem lazy_string_array_dot_agrees : agrees true KFlag (FStr false) 1 w_dot_cell /\
+  lazy true KFlag (FStr false) w_dot_cell = eager KFlag (FStr false) 1 w_dot_cell.
+Proof. split; [agrees_by_computation|vm_compute; reflexivity]. Qed.
+
+(* ---- was lazy-info-character-multibyte: INFO X (Number=1, Type=Character) = U+00E9 (c3 a9).  The lazy
+   accessor now returns the character.  The real read_record_buf returns it too (corpus/C10/lazy.case);
+   the eager MODEL does not, because NV.Bcf.Strings takes a Character to be one byte -- this is the
+   model's documented assumption, and the reason for [lazy_agree] *)
+Definition w_multibyte : list N := w_frame (w_fixed 1 1 0 0 ++ [7; 23; 65; 0; 17; 1; 39; 195; 169]%N) [].
+Theorem lazy_info_character_multibyte_read :
+  match lazy true (KChar false) (FInt true) w_multibyte with
+  | ROk t => t_info t = [(nX, IS (SChar 233))]%N
+  | _ => False
+  end /\ is_err (eager (KChar false) (FInt true) 0 w_multibyte) = true.
+Proof. split; vm_compute; reflexivity. Qed.
+
+(* ---- what [lazy_agree] excludes: a Character array that is not ASCII.  INFO X (Number=.,
+   Type=Character) = U+00E9: the lazy model returns the one character, the eager model its two bytes
+   (the real read_record_buf returns the one character: corpus/C10/lazy.case) *)
+Definition w_nonascii_chars : list N := w_frame (w_fixed 1 1 0 0 ++ [7; 23; 65; 0; 17; 1; 39; 195; 169]%N) [].
+Theorem lazy_agree_excludes_nonascii_characters :
+  agree (KChar true) (FInt true) 0 w_nonascii_chars = false /\
+  is_ok (eager (KChar true) (FInt true) 0 w_nonascii_chars) = true /\
+  match lazy true (KChar true) (FInt true) w_nonascii_chars with
+  | ROk t => t_info t = [(nX, IS (SChars [Some 233]))]%N
+  | _ => False
+  end /\
+  ~ same true (lazy true (KChar true) (FInt true) w_nonascii_chars) (eager (KChar true) (FInt true) 0 w_nonascii_chars).
+Proof.
+  split; [vm_compute; reflexivity|]. split; [vm_compute; reflexivity|]. split; [vm_compute; reflexivity|].
+  vm_compute. discriminate.
+Qed.
 
 (* ---- the other direction: records the lazy path accepts and the eager reader rejects *)
 (* n_sample = 2 under a header without samples (the lazy path never looks at the header's sample names) *)
@@ -120,8 +169,51 @@ Theorem lazy_accepts_empty_filter_vector_eager_rejects :
   is_err (eager KFlag (FInt true) 0 w_filter_len0) = true /\ is_ok (lazy true KFlag (FInt true) w_filter_len0) = true.
 Proof. split; vm_compute; reflexivity. Qed.
 
+(* rlen < 0: read_site rejects it, the lazy path never looks at the span *)
+Definition w_neg_rlen : list N :=
+  w_frame (enc_int W32 0 ++ enc_int W32 0 ++ enc_int W32 (-1) ++ enc_f32 f_missing
+           ++ le_bytes 2 0 ++ le_bytes 2 1 ++ le_bytes 3 0 ++ [0%N] ++ [7; 23; 65; 0]%N) [].
+Theorem lazy_accepts_negative_rlen_eager_rejects :
+  is_err (eager KFlag (FInt true) 0 w_neg_rlen) = true /\ is_ok (lazy true KFlag (FInt true) w_neg_rlen) = true.
+Proof. split; vm_compute; reflexivity. Qed.
+
+(* the same INFO key twice: read_info rejects the duplicate, the lazy path collects into an IndexMap
+   (the later value replaces the earlier one) *)
+Definition w_dup_info : list N := w_frame (w_fixed 2 1 0 0 ++ [7; 23; 65; 0; 17; 1; 0; 17; 1; 0]%N) [].
+Theorem lazy_accepts_duplicate_info_key_eager_rejects :
+  is_err (eager KFlag (FInt true) 0 w_dup_info) = true /\
+  match lazy true KFlag (FInt true) w_dup_info with ROk t => t_info t = [(nX, IFlagV)] | _ => False end.
+Proof. split; vm_compute; reflexivity. Qed.
+
+(* a GT cell whose first byte is the missing / a reserved Int8 (0x80): parse_genotype_values rejects it
+   (InvalidGenotype), the lazy Genotype::iter stops at it and returns a genotype WITHOUT alleles *)
+Definition w_gt_missing_byte : list N := w_frame (w_fixed 0 1 1 1 ++ [7; 23; 65; 0]%N) [17; 2; 17; 128]%N.
+Theorem lazy_accepts_gt_sentinel_eager_rejects :
+  is_err (eager KFlag (FInt true) 1 w_gt_missing_byte) = true /\
+  match lazy true KFlag (FInt true) w_gt_missing_byte with ROk t => t_rows t = [[CG (Some [])]] | _ => False end.
+Proof. split; vm_compute; reflexivity. Qed.
+
+(* n_sample = 0 and a series whose key has no FORMAT definition (X is an INFO id): read_samples looks the
+   key up (MissingTypeDefinition), the lazy path only when a sample asks for a value *)
+Definition w_no_samples_undefined_key : list N := w_frame (w_fixed 0 1 0 1 ++ [7; 23; 65; 0]%N) [17; 1; 17]%N.
+Theorem lazy_accepts_undefined_key_without_samples_eager_rejects :
+  is_err (eager KFlag (FInt true) 0 w_no_samples_undefined_key) = true /\
+  match lazy true KFlag (FInt true) w_no_samples_undefined_key with ROk t => t_keys t = [nX] /\ t_rows t = [] | _ => False end.
+Proof. split; [vm_compute; reflexivity|vm_compute; split; reflexivity]. Qed.
+
+(* every one of these records lies in the class [lazy_only] of LazyConverse (each in a different part of
+   it), and so does the multi-byte INFO Character, which the eager MODEL rejects *)
+Definition only (kd : ikind) (fd : fkind) (hs : Z) (bs : list N) : bool :=
+  lazy_only w_strings (w_ik kd) (w_fk fd) hs bs.
+Theorem lazy_only_witnesses :
+  only KFlag (FInt true) 0 w_more_samples = true /\ only KFlag (FInt true) 0 w_filter_len0 = true /\
+  only KFlag (FInt true) 0 w_neg_rlen = true /\ only KFlag (FInt true) 0 w_dup_info = true /\
+  only KFlag (FInt true) 1 w_gt_missing_byte = true /\ only KFlag (FInt true) 0 w_no_samples_undefined_key = true /\
+  only (KChar false) (FInt true) 0 w_multibyte = true.
+Proof. repeat split; vm_compute; reflexivity. Qed.
+
 (* ---- non-vacuity of the agreement theorem: a record with an INFO field, GT and a FORMAT series, two
-   samples, inside the class, accepted by both *)
+   samples, inside the class, accepted by both; the normal form is needed *)
 Definition w_good : list N :=
   w_frame (w_fixed 1 2 2 2 ++ [55; 114; 115; 49; 23; 65; 23; 67; 17; 0; 17; 1; 39; 97; 37]%N)
           [17; 2; 33; 2; 5; 4; 4; 17; 3; 55; 120; 44; 46; 46; 0; 0]%N.
@@ -133,3 +225,9 @@ Proof.
   split; [vm_compute; reflexivity|]. split; [vm_compute; reflexivity|]. split; [vm_compute; reflexivity|].
   vm_compute. discriminate.
 Qed.
+
+(* ... and the premises of the converse are satisfiable: the same record is outside [lazy_only] *)
+Theorem lazy_converse_nonvacuous :
+  only (KStr true) (FStr false) 2 w_good = false /\ agree (KStr true) (FStr false) 2 w_good = true /\
+  is_ok (lazy false (KStr true) (FStr false) w_good) = true.
+Proof. repeat split; vm_compute; reflexivity. Qed.
